@@ -5,7 +5,7 @@ Every rule works on the instantiated member functions of /repo's current headers
 (witness/instantiate.cpp supplies explicit instantiations).  Class descriptors below were
 confirmed by reading the code and are the frozen slot table of the rule templates."""
 import re
-from . import q
+from . import q, fin
 from .facts import AnalysisBroken
 
 NODE = {
@@ -895,3 +895,51 @@ def iterator_param_alias(prog, chk, rid, classes=tuple(NODE)):
                                "%d reads, %d mutating events" % (len(reads), len(muts)), evals=max(1, len(reads) * max(1, len(muts))))
             if n_params == 0:
                 chk.ok(rid, cls, "%s: no const Iterator& parameters" % tn, "", "", nontrivial=False)
+
+
+def parent_pairing(prog, chk, rid, classes=("Map", "MultiMap")):
+    """tree containers: every write of a child link with a node Y is paired with Y->parent on every path where Y is non-null"""
+    TREE = classes
+    chk.rule(rid, "PAIRF: every write of a child link (X->left / X->right / *cell) with a node Y is paired with Y->parent = X on every path "
+                      "on which Y is non-null", floor=20)
+    for cls in TREE:
+        for tn, fs in sorted(class_insts(prog, cls).items()):
+            for f in fs:
+                if f.short not in ("remove", "rotl", "rotr", "insert") or (f.short == "insert" and not placement_news(f)) or (f.short == "remove" and not dtor_events(f)):
+                    continue
+                sts = q.stores(f)
+                for s in sts:
+                    if s.op != "=" or s.rhs is None:
+                        continue
+                    lt = q.no_casts(f.r(s.lhs))
+                    m = re.match(r"^(\w+)->(left|right)$", lt)
+                    is_cell = lt in ("*cell", "cell")
+                    if not m and not is_cell:
+                        continue
+                    y = f.nodes[f.strip(s.rhs)]
+                    if q.is_zero(f, s.rhs) or not f.nodes[s.lhs].get("t", "").endswith("Item *"):
+                        continue
+                    if y["k"] == "DeclRefExpr":
+                        Y = y["ref"]["n"]
+                    elif y["k"] == "MemberExpr":
+                        Y = q.no_casts(f.r(f.strip(s.rhs)))   # e.g. prev->left handed over directly
+                    else:
+                        continue
+                    if f.short == "insert" and Y == "item":
+                        continue   # the new node gets its parent from its constructor
+                    want = [t.node for t in sts if q.no_casts(f.r(t.lhs)) == Y + "->parent" and (is_cell or q.no_casts(f.r(t.rhs)) == m.group(1))]
+                    # paths on which Y is null need no back-pointer
+                    skip = set()
+                    for b in f.blocks.values():
+                        c = b.get("cond")
+                        if c is None or len(b["succ"]) != 2 or b["succ"][1] is None:
+                            continue
+                        k = fin.key(f, c)
+                        if k == Y or k == "(%s != 0)" % Y or (s.node in f.desc(c)):
+                            skip.add((b["succ"][1], 0))
+                    pos = f.node_pos(s.node)
+                    if want and paths_all_pass(f, pos, q.pos_of(f, want) | skip):
+                        chk.ok(rid, f, "`%s = %s` paired with %s->parent" % (lt, Y, Y), f.where(s.node), "prefix/suffix path search", evals=2)
+                    else:
+                        chk.bad(rid, f, "child-link-without-parent-pointer:%s=%s" % (lt.replace("->", "."), Y), f.where(s.node),
+                                "`%s = %s` makes %s a child but a path does not set %s->parent accordingly: later rotations/removals walk up through a stale parent" % (lt, Y, Y, Y))
